@@ -98,7 +98,7 @@ mod e2e {
             out.push(format!("indexfile {tag} {id}"));
             for (del, list) in [(0, &f.packs), (1, &f.packs_to_delete)] {
                 for p in list {
-                    out.push(format!("index {tag} {id} {del} {} {} {}", p.id.to_hex().as_str(), p.size.map_or("-".to_string(), |s| s.to_string()), fmt_blobs(&p.blobs)));
+                    out.push(format!("index {tag} {id} {del} {} {} {} {}", p.id.to_hex().as_str(), p.size.map_or("-".to_string(), |s| s.to_string()), i32::from(p.time.is_some()), fmt_blobs(&p.blobs)));
                 }
             }
         }
